@@ -5,5 +5,5 @@ SPEC = seq_spec(
     "Lean 4 theorems: pool bound as an invariant of every accepted sequence (C17_bound), the full-pool admission policy as decision lemmas (low rejected; high evicts exactly one low entry or is rejected), eviction bookkeeping, a stopped instance signs nothing further, ack/nack exclusivity per pool outcome. The real code is exercised with pool sizes 1-4, arrival orders of high/low/duplicate entries, faults and stops; every waiter must report exactly one outcome within a bounded wait after its pool is sequenced (a blocked waiter is a violation). RunSequencer's deferred close is tied by the extracted skeleton only; wall-clock promptness is represented by the bounded wait.",
     "Trusted: Lean kernel, standard axioms, extractor, harness stores/scheduler, Lean SHA-256 rendering. Assumes the Backend/LockBackend contracts, collision resistance, unforgeability.",
     "invariants by induction over all accepted event sequences (Lean 4) + regenerated effect-skeleton tie + trace acceptance of the real code with byte-exact rendering",
-    required=['C17_bound', 'C17_full_low_rejected', 'C17_full_high_evicts', 'C17_evict_exactly_one', 'C17_after_stop'],
+    required=['C17_bound', 'C17_full_low_rejected', 'C17_full_high_evicts', 'C17_evict_exactly_one', 'C17_eviction_ends_by_removal', 'C17_after_stop'],
 )
